@@ -171,4 +171,37 @@ Proof. intros Hc. unfold Zof.
 Theorem bp_exact total c0 c x : c0 < ncl -> c < ncl -> valid x ->
   @marginal R shape D ncl scope psi sch total c0 c x = @brute R shape D ncl psi total (scope c) x.
 Proof. intros H0 Hc Vx. unfold marginal, brute. rewrite belief_is_marginal by auto. now rewrite Z_is_total_mass. Qed.
+
+(* ---------- C16: synchronous (flooding) message passing - what loopy propagation does on a tree ----------
+   Every round recomputes EVERY message from the previous round's messages, m'(i->j) = sum_{C_i \ C_j} psi_i * prod_{k <> j} m(k->i)
+   (division-free, unnormalised).  On a tree the message i->j only depends on the subtree hanging off i away from j, so after as
+   many rounds as that subtree is high it IS the true message, whatever the initial messages were; once every message is true the
+   beliefs psi_c * prod_k m(k->c), normalised to the total, are the brute-force marginals. *)
+Definition flood (m : nat -> nat -> tbl) : nat -> nat -> tbl := fun i j => sum_vars (elimv scope i j) (F R nbrs psi m i j).
+Fixpoint height (t : rt) : nat := match t with Node _ ks => S (fold_right (fun k acc => Nat.max (height k) acc) 0 ks) end.
+Lemma height_child c ks k : In k ks -> height k < height (Node c ks).
+Proof. simpl. induction ks as [|k' r IH]; simpl; intros H. contradiction. destruct H as [->|H]. lia. specialize (IH H). lia. Qed.
+
+Theorem flood_reaches_true_messages n : forall i j, In j (nbrs i) -> height (tr i j) <= n ->
+  forall m0 x, Nat.iter n flood m0 i j x = Mtrue i j x.
+Proof. induction n as [|n IH]; intros i j Hj Hh m0 x.
+  - exfalso. destruct (tr i j); simpl in Hh; lia.
+  - simpl. unfold flood at 1. rewrite (Mtrue_rec i j Hj). apply sum_vars_ext. intros y. unfold F. f_equal. f_equal.
+    apply map_ext_in. intros k Hk0. pose proof Hk0 as Hk. unfold others in Hk. apply filter_In in Hk. destruct Hk as [Hk _].
+    apply IH. now apply nbrs_sym.
+    assert (HC : height (tr k i) < height (tr i j)).
+    { rewrite (tr_unfold i j Hj). apply height_child. apply in_map_iff. exists k. split; auto. }
+    lia. Qed.
+
+Definition flood_belief (n : nat) (m0 : nat -> nat -> tbl) (c : nat) : tbl :=
+  fun x => mul R (psi c x) (prodl R (map (fun k => Nat.iter n flood m0 k c x) (nbrs c))).
+Theorem flood_exact n m0 total c0 c x : (forall i j, In j (nbrs i) -> height (tr i j) <= n) -> c0 < ncl -> c < ncl -> valid x ->
+  mul R (flood_belief n m0 c x) (div R total (sum_vars (scope c0) (flood_belief n m0 c0) base0)) = @brute R shape D ncl psi total (scope c) x.
+Proof. intros H H0 Hc Vx.
+  assert (E : forall c' y, c' < ncl -> valid y -> flood_belief n m0 c' y = bel (run sch init) c' y).
+  { intros c' y Hc' Vy.
+    rewrite (run_beliefs R shape D ncl scope nbrs psi nbrs_nodup nbrs_sym nbrs_lt psi_dep Mtrue Mtrue_rec Mtrue_indep sch sch_valid sch_complete c' y Hc' Vy).
+    unfold flood_belief. f_equal. f_equal. apply map_ext_in. intros k Hk. apply flood_reaches_true_messages. now apply nbrs_sym. apply H. now apply nbrs_sym. }
+  rewrite <- (bp_exact total c0 c x H0 Hc Vx). unfold marginal. rewrite E by auto. f_equal. f_equal. unfold Zof.
+  apply sum_vars_ext_on. intros y A Rg. apply E; auto. exact (@valid_fibre shape _ _ _ base0_valid A Rg). Qed.
 End Link.
